@@ -227,6 +227,8 @@ type Scenario struct {
 	PrecipCorr           bool
 	PrivateTexture       string            `json:",omitempty"` // a texture class that only the project's own parameter folder defines (rows copied from PrivateTextureLike); the first horizon uses it
 	PrivateTextureLike   string            `json:",omitempty"`
+	FileExt              string            `json:",omitempty"` // fileExtension=<ext> on the batch line (rotation, polygon, automan files carry it)
+	GWId                 string            `json:",omitempty"` // gwId=<id> on the batch line selects the groundwater series
 	ReducedTablesWithout string            // the project runs with a parameter folder of its own whose texture tables lack this texture
 	AliasCrops           map[string]string // crop code of the built-in table without a shipped parameter file -> shipped crop whose parameter file the project supplies under that name
 	AlwaysPreco          bool              // write the monthly precipitation-correction table even if the correction is off (a batch line may switch it on)
@@ -612,6 +614,14 @@ func genWithProfile(prop string, seed uint64, idx int, r *Rng, p Profile) *Scena
 	gwZero := rz.Bool(0.025)
 	if gwZero {
 		sc.Soil.GW, sc.GRHI, sc.GRLO = 0, 0, pickI(rz, []int{0, 0, 1, 4})
+	}
+	if rx := NewRng(mix(mix(seed, uint64(idx)), 6161)); true {
+		if rx.Bool(0.06) && prop != "C13" && prop != "C18" && prop != "C14" {
+			sc.FileExt = pickS(rx, []string{"v2", "alt", "scn", "TXT2"})
+		}
+		if rx.Bool(0.2) && sc.GWMode == 2 {
+			sc.GWId = pickS(rx, []string{"G77", "W01", "990"})
+		}
 	}
 	if sc.GWMode == 2 {
 		genGWSeries(sc, r)
